@@ -131,6 +131,11 @@ func rulesErrNilRecord(c *Ctx, r *Report, funcs []*ssa.Function, e *fdEngine) {
 					return
 				}
 			}
+			// a return reached only with the error nil or io.EOF: the last, unterminated piece of data together with
+			// the end of the input is data, not a failure
+			if valClassAtBlock(errV, ret.Block(), cNil|cEOF|cOther)&cOther == 0 {
+				return
+			}
 			n++
 			zero := false
 			if k, ok := dataV.(*ssa.Const); ok && (k.Value == nil || k.IsNil() || isZeroConst(k)) {
@@ -246,7 +251,7 @@ func rulesStreamErrorLast(c *Ctx, r *Report) {
 				for _, rhs := range defsOf(y.f, obj) {
 					if fo := calleeOfExpr(info, rhs); fo != nil {
 						full := fo.FullName()
-						if _, ok := streamSources[full]; ok {
+						if c.isStreamFunc(fo) {
 							return true, "error of " + full
 						}
 					}
@@ -314,6 +319,13 @@ func rulesWriters(c *Ctx, r *Report) {
 		})
 	}
 	r.floor("B1", nCalls, 10, "error-returning calls in the five Write methods")
+	// 'returns nil when everything was accepted': the errors Write returns are the writer's (or a documented refusal)
+	for _, sp := range []struct {
+		rel, method string
+		doc         func(l edgeLit) (string, bool)
+	}{{"formats/fasta", "(*Fasta).Write", nil}, {"formats/fastq", "(*Fastq).Write", nil}, {"formats/sam", "(*SAM).Write", nil}, {"formats/bed", "(*BED).Write", bedNRange}, {"formats/newick", "(*Node).Write", nil}} {
+		rulesWriterErrOrigin(c, r, sp.rel, sp.method, sp.doc)
+	}
 	r.floor("B1-functions", nFuncs, 5, "Write methods with an io.Writer parameter")
 }
 
